@@ -247,6 +247,7 @@ NOASAN __attribute__((noinline)) static void stack_poison(char *lo, char *hi) {
 // The dead frames of whatever fn ran stay untouched in [range_lo, range_hi)
 // until the next deepcall: harness frames live above range_hi.
 struct DeepRange { char *lo, *hi; };
+static bool g_call_on_new_thread;     // this op's API call runs on a brand-new thread (state that is per-process must not be per-thread)
 __attribute__((noinline)) static DeepRange deepcall(int task, std::function<void()> f, bool poison) {
   char marker;
   DeepRange r;
@@ -256,6 +257,14 @@ __attribute__((noinline)) static DeepRange deepcall(int task, std::function<void
   if (r.hi - r.lo > 262144 && g_stack_garbage_seed) r.lo = r.hi - 262144;   // the garbage variant only needs the part a call can reach
   if (poison || g_stack_garbage_seed) stack_poison(r.lo, r.hi);
   DeepCall dc{&f};
+  if (g_call_on_new_thread && !thr::enabled) {
+    g_call_on_new_thread = false;
+    int me = cur_task();
+    pthread_t th; struct Arg { DeepCall *dc; int task; } a{&dc, me};
+    pthread_create(&th, nullptr, [](void *p) -> void * { Arg *q = (Arg *)p; set_cur_task(q->task); deep_tramp(q->dc); return nullptr; }, &a);
+    pthread_join(th, nullptr);
+    return r;
+  }
   deep_inner(deep_tramp, &dc);
   return r;
 }
@@ -349,6 +358,7 @@ static Run *g_run;
 extern "C" { extern char sim_static_crypt_ctx[] __attribute__((weak)); }   // crypt()'s private object (objcopy gives it this name)
 
 static const size_t CD = sizeof(struct crypt_data);
+static const size_t OBJ_PAD = 1024, OBJ_BLOCK = sizeof(struct crypt_data) + 2 * OBJ_PAD + 64;   // room for argument strings right before/after the object
 static bool all_zero(const void *p, size_t n) NOASAN;
 static bool all_zero(const void *p, size_t n) {
   const unsigned char *c = (const unsigned char *)p;
@@ -646,6 +656,19 @@ static void exec_hash(Run &r, int t, int i, const J &op) {
     memcpy(cd->setting, c.setting.b.c_str(), c.setting.b.size() + 1); stp = cd->setting; stat("probe_setting_in_object"); if (obj) obj->setting_tainted = true;
   }
 
+  // argument strings that touch the object without overlapping it: the terminator is the last byte before the
+  // object, or the string starts at the first byte behind it (struct { char pw[16]; struct crypt_data cd; })
+  if (op.has("adj") && obj && cd && full_object) {
+    std::string how = op.str("adj");
+    const std::string *src = how[0] == 'p' ? (c.phrase.null ? nullptr : &c.phrase.b) : (c.setting.null ? nullptr : &c.setting.b);
+    bool is_lit = how[0] == 'p' ? php == c.phrase.cstr() : stp == c.setting.cstr();
+    if (src && is_lit && src->size() + 1 <= OBJ_PAD) {
+      char *dst = how.find("before") != std::string::npos ? (char *)cd - (src->size() + 1) : (char *)cd + CD;
+      memcpy(dst, src->c_str(), src->size() + 1);
+      if (how[0] == 'p') php = dst; else stp = dst;
+      stat("probe_argument_adjacent_to_object");
+    }
+  }
   if (op.i("guard") && !thr::enabled) {
     if (php && php == c.phrase.cstr()) { const char *q = guard_place(c.phrase.b, 0); if (q) { php = q; stat("probe_phrase_at_page_end"); } }
     if (stp && stp == c.setting.cstr()) { const char *q = guard_place(c.setting.b, 1); if (q) { stp = q; stat("probe_setting_at_page_end"); } }
@@ -1185,6 +1208,8 @@ static void exec_prim(Run &r, int t, int i, const J &op) {
 
 static void exec_op(Run &r, int t, int i, const J &op) {
   set_cur_op(t, i);
+  g_call_on_new_thread = op.i("newthread") != 0 && r.ntasks == 1;
+  if (g_call_on_new_thread) stat("probe_call_on_fresh_thread");
   std::string k = op.str("k");
   if (k == "crypt" || k == "crypt_r" || k == "crypt_rn" || k == "crypt_ra") exec_hash(r, t, i, op);
   else if (k == "gensalt" || k == "gensalt_rn" || k == "gensalt_ra") exec_gensalt(r, t, i, op);
@@ -1196,6 +1221,7 @@ static void exec_op(Run &r, int t, int i, const J &op) {
   else if (k == "scribble") exec_scribble(r, t, i, op);
   else if (k == "prim") exec_prim(r, t, i, op);
   else crash_exit("machinery", ("unknown op kind " + k).c_str());
+  g_call_on_new_thread = false;
 }
 
 static void task_body(int t, void *arg) {
@@ -1245,11 +1271,11 @@ static RunOut run_plan(const J &plan, uint64_t fill_override, bool use_override)
     const J &tj = plan.at("tasks").a[(size_t)t];
     for (auto &oj : tj.at("objs").a) {
       DataObj o; o.align = (int)oj.i("align") & 15;
-      o.base = (char *)aligned_alloc(64, CD + 64);
-      o.cd = (struct crypt_data *)(o.base + o.align);
+      o.base = (char *)aligned_alloc(64, OBJ_BLOCK);
+      o.cd = (struct crypt_data *)(o.base + OBJ_PAD + o.align);
       std::string init = oj.str("init", "zero");
-      if (init == "zero") memset(o.base, 0, CD + 64); else garbage_fill(o.base, CD + 64, (use_override ? fill_override : 0) + (uint64_t)oj.i("gseed", 1));
-      thr::region_add(o.base, CD + 64, t, "data-object");
+      if (init == "zero") memset(o.base, 0, OBJ_BLOCK); else garbage_fill(o.base, OBJ_BLOCK, (use_override ? fill_override : 0) + (uint64_t)oj.i("gseed", 1));
+      thr::region_add(o.base, OBJ_BLOCK, t, "data-object");
       r.tc[t].objs.push_back(o);
     }
     r.tc[t].slots.resize((size_t)tj.i("slots", 0));
